@@ -37,3 +37,14 @@ Definition geo_model (prec : R) (rfu : R -> nat -> R) (xb xe db de : R) (n : nat
 Definition rfu_uniform (r : R) (n : nat) : R := 1 / INR n.
 (* after the fix of finding F4: rf = 1 / sum_{i<n} r^i *)
 Definition rfu_sum (r : R) (n : nat) : R := 1 / gsum r n.
+
+(* ---- the two loops of the code, one iteration at a time (loop state made explicit)
+   node loop      for (; p != v.end(); ++p, re *= r) { s += f * re; *p = xb + s; }   state (re, s)
+   geometric sum  for (i = 0; i != n; ++i, rn *= r) { sum += rn; }                   state (sum, rn) *)
+Definition node_step (xb f r : R) (st : R * R) : R * (R * R) :=
+  let s' := snd st + f * fst st in (xb + s', (fst st * r, s')).
+Definition sum_step (r : R) (st : R * R) : R * R := (fst st + snd st, snd st * r).
+Fixpoint sum_loop (k : nat) (r : R) (st : R * R) : R * R :=
+  match k with O => st | S k' => sum_loop k' r (sum_step r st) end.
+(* the state of the node loop after k iterations started from (re, s) *)
+Definition node_state (f r : R) (k : nat) (re s : R) : R * R := (re * r ^ k, s + f * re * gsum r k).
